@@ -951,8 +951,12 @@ class C19(core.Property):
     ]
     hypotheses = [
         "cfg.legacy = false / legacyCommit = false (the tree after fixes/C19-*.diff)",
-        "RedelivLegit: a message_redelivery event exists only for a message delivered before (created by schedule_redelivery)",
-        "delivery_reaches_consumer / topic: quiescent end (no delivery still suspended or in the heap)",
+        "first_deliveries_in_publish_order: RedelivLegit (a message_redelivery event only for a message delivered before) — weakened in "
+        "first_deliveries_in_publish_order_causal to the engine fact TimerCausal: a message_redelivery event is delivered only if schedule_redelivery "
+        "handed one out that has not been delivered yet (TimerCausal ⇒ RedelivLegit is proved)",
+        "delivery_reaches_consumer / topic: quiescent end (no delivery still suspended or in the heap) — for the queue discharged by "
+        "delivery_safe_on_every_schedule: without it every per-step clause still holds and the judge's only possible objection is the end-of-run one, "
+        "raised exactly when a delivery is still on its way at the cut",
         "MQ.fire: the engine resumes a generator exactly `latency` after the yield (C02)",
         "offsets / reads / retention: schedule times nondecreasing (engine clock, C01); partitions > 0",
         "key stability: the sharding hash is a function of the key (parameter)",
@@ -1168,6 +1172,8 @@ THEOREMS = [
     "HappyModel.C19.Props.ack_is_final",
     "HappyModel.C19.Props.ack_of_owed_message_takes_effect",
     "HappyModel.C19.Props.redelivery_never_stuck",
+    "HappyModel.C19.Props.first_deliveries_in_publish_order_causal",
+    "HappyModel.C19.Props.delivery_safe_on_every_schedule",
     "HappyModel.C19.Props.delivery_reaches_consumer",
     "HappyModel.C19.Props.legacy_stale_stamp_witness",
     "HappyModel.C19.Props.legacy_ghost_pending_witness",
